@@ -226,6 +226,8 @@ def replay(prop, path, work, seed):
         return replay_crash(prop, path, rp, work, seed)
     if rp.get("kind") == "conc":
         return replay_conc(prop, path, rp, work, seed)
+    if rp.get("kind") == "locks":
+        return replay_locks(prop, path, rp, work, seed)
     if rp.get("kind", "history") != "history":
         raise Inconclusive("replay kind %s not handled here" % rp.get("kind"))
     vh = vlib.build_harness(work)
@@ -1509,9 +1511,16 @@ def c12(prop, tier, seed, work):
     cf = work.path("cancel.ndjson")
     rc, out, dt = vlib.run([vh, "locks", "-mode", "cancel", "-o", cf], timeout=600, check=False, env=env)
     cres = [json.loads(l) for l in open(cf)] if os.path.exists(cf) else []
-    if len(cres) < 2:
-        raise Inconclusive("cancel scenario failed:\n" + out[-2000:])
+    if len(cres) < 3:
+        raise Inconclusive("cancel / shutdown scenarios failed:\n" + out[-2000:])
     for r in cres:
+        if r["k"] == "shutdown":
+            if not r["built"]:
+                raise Inconclusive("shutdown scenario: %s (the scenario no longer builds the situation)" % r["note"])
+            if not r["ok"]:
+                path = vlib.save_replay(prop, "shutdown", {"property": prop, "kind": "locks", "mode": "cancel", "result": r})
+                violations.append((path, "shutdown scenario: %s" % r["note"]))
+            continue
         if not r["waited"]:
             raise Inconclusive("cancel scenario on %s: the request did not wait for the collection (the scenario no longer builds the situation)" % r["store"])
         if not r["ok"]:
@@ -1529,7 +1538,7 @@ def c12(prop, tier, seed, work):
                    "abandoned / cancelled / evicted / expired sessions, manifests, mounts, collections and Close runs on dir and mem with a session limit, a short grace period and the collection "
                    "ticker; each goroutine segment that blocks while holding something becomes a thread program of spec/Locks.tla; TLC runs all pairs (thorough: triples) in every interleaving and "
                    "reports blocked states; the same scripts then run from 10 goroutines at once, plainly and with delays at the edges of every predicted cycle: a request, collection or Close that "
-                   "does not return within 5 s is a hang (verdicts only from these real executions); a cancelled request waiting for a collection must return",
+                   "does not return within 5 s is a hang (verdicts only from these real executions); a cancelled request waiting for a collection must return; Shutdown of a listening server with rate limiting must return when the one accepted request, held right before the rate limiter, is let go",
            "samples": [{"name": p["name"][:80], "ops": ["%s %s" % (o["op"], o["class"]) for o in p["ops"][:10]]} for p in progs[:2]],
            "known_findings_reported": sorted(klines), "exhaustive": False, "failures": [v[1] for v in violations][:10]}
     vlib.write_evidence(prop, tier, seed, "model_checking", cov, ASSUME_COMMON[:2] + [
@@ -1542,6 +1551,37 @@ def c12(prop, tier, seed, work):
             print("VIOLATION property=%s replay=%s" % (prop, path))
             log("  " + what)
         return 1
+    return 0
+
+
+def replay_locks(prop, path, rp, work, seed):
+    """Runs the stress (with the delays of the recorded run) or the cancel scenario again on the current tree."""
+    import re
+    ovf, counts = rewrite_vsync(work)
+    vh = vlib.build_harness(work, tags="verif vsync", overlay=ovf)
+    env = dict(os.environ, TMPDIR=work.sub("roots"))
+    of = work.path("replay-locks.ndjson")
+    if rp.get("mode") == "cancel":
+        vlib.run([vh, "locks", "-mode", "cancel", "-o", of], timeout=600, check=False, env=env)
+        bad = [r for r in (json.loads(l) for l in open(of)) if not r["ok"]]
+    else:
+        bad = []
+        for attempt in range(3):
+            cmd = [vh, "locks", "-mode", "stress" if rp.get("mode") != "record" else "record", "-o", of, "-seed", str(rp.get("seed", seed) + attempt), "-secs", "6"]
+            if rp.get("edges"):
+                cmd += ["-edges", rp["edges"]]
+            rc, out, dt = vlib.run(cmd, timeout=3000, check=False, env=env)
+            m = re.search(r"(\d+) requests, (\d+) hung", out)
+            if not m:
+                raise Inconclusive("stress run failed:\n" + out[-2000:])
+            if int(m.group(2)) > 0:
+                bad = [m.group(0)]
+                break
+    if bad:
+        log("  %s" % json.dumps(bad)[:400])
+        print("VIOLATION property=%s replay=%s" % (prop, path))
+        return 1
+    print("replay passes: nothing hangs")
     return 0
 
 
